@@ -13,11 +13,14 @@ pub fn scenario(seed: u64, campaign: &'static str, prop: &'static str, idx: u64)
     sc.request_size = pick_buffer(&mut rng);
     sc.yields = pick_yields(&mut rng);
     sc.tree = small_tree(rng.next());
+    if prop == "C10" && rng.chance(1, 2) {
+        sc.env = super::c09::cors_env(&mut rng);
+    }
     let n = rng.range(1, 6);
     let targets = ["/file.txt", "/page.html", "/page", "/d/", "/d", "/big.bin", "/", "/missing.txt"];
     let faults: Vec<&str> = match campaign {
         "segmented" => vec!["seg"],
-        "faulted" => swarm_subset(&mut rng, &["seg", "eof", "eof_mid", "read_err", "short_write", "write_zero", "write_err", "flush_err", "client_gone", "handler_err", "stall"]),
+        "faulted" => swarm_subset(&mut rng, &["seg", "eof", "eof_mid", "read_err", "short_write", "write_zero", "write_err", "flush_err", "client_gone", "handler_err", "stall", "handler_panic"]),
         _ => vec![],
     };
     let overlapped = rng.chance(1, 2);
